@@ -233,6 +233,9 @@ fn handle_on_connection(
                 tcb.state = TcpState::Established;
                 tcb.rcv_nxt = s.seq.wrapping_add(1);
                 tcb.snd_wnd = s.window;
+                // The SYN is acknowledged: retransmit state starts afresh.
+                tcb.egress_since_ack = 0;
+                tcb.retx_attempts = 0;
                 (tcb.snd_nxt, tcb.rcv_nxt, advertised_window(recv_cap, 0))
             };
             wake_connect(k, fd);
@@ -265,6 +268,9 @@ fn handle_on_connection(
                 let tcb = k.lookup_mut(fd).unwrap().tcb.as_mut().unwrap();
                 tcb.state = TcpState::Established;
                 tcb.snd_wnd = s.window;
+                // The SYN-ACK is acknowledged: retransmit state starts afresh.
+                tcb.egress_since_ack = 0;
+                tcb.retx_attempts = 0;
             }
             push_to_listener(k, fd, local);
         }
